@@ -3,7 +3,7 @@
    Schema/StoreModel.v, the vocabulary Spec/StoreSpec.v. *)
 From PyGql Require Import Spec.StoreSpec Proofs.StoreProofs Proofs.StoreHeal Proofs.StoreLoop
      Proofs.StoreFrame Proofs.StoreClone Proofs.StoreOps Proofs.StoreTerm Proofs.StoreObserve
-     Spec.StoreExtSpec Proofs.StoreExtendP Proofs.StoreExtPres Proofs.StoreVis.
+     Spec.StoreExtSpec Proofs.StoreExtendP Proofs.StoreExtPres Proofs.StoreVis Proofs.StoreVisM Proofs.StoreCloneP.
 Local Open Scope N_scope.
 
 (* Schema(query, mutation, subscription, directives, types): whenever the
@@ -161,20 +161,25 @@ Theorem C14_visibility_types : forall fuel p m s m' s',
 Proof. exact vis_types_removed. Qed.
 Print Assumptions C14_visibility_types.
 
-(* full statement for members (not proved): rejected fields / input fields are
-   in no member list of a registered type *)
-Definition C14_visibility_members_full : Prop :=
-  forall fuel p m s m' s',
-    wf_schema m s -> closed m s ->
-    on_schema fuel (vis_visitor p) m s = Ok (m', s') ->
-    forall n o, In (n, o) (s_types s') ->
-      forall f fn, In f (match mget m' o with Some (OType _ _ _ ms _ _ _) => ms | _ => [] end) ->
-                   oname m' f = Some fn ->
-                   match tkind m' o with
-                   | Some Kobject | Some Kinterface => vp_field p n fn = true
-                   | Some Kinput => vp_inf p n fn = true
-                   | _ => True
-                   end.
+(* ... and the rejected members are gone too: after the transform and all the
+   healing it triggers, every registered (non-specified) type of kind object /
+   interface holds only fields accepted by is_field_visible (under the name the
+   type is registered as) whose arguments are all accepted by the argument
+   predicate; every input object only input fields accepted by
+   is_input_field_visible; every enum only accepted values; every directive
+   only accepted arguments ([regood] / [dsgood] of Proofs/StoreVisM.v:
+   [tgood m n o] = all members x of o satisfy [nameok (qmem k n) m x], fields
+   moreover [Forall (nameok vp_arg m) (args_of m x)]). With C14_visibility_types
+   and closedness, removed elements are unreachable from the registry, hence
+   from queries and introspection. *)
+Theorem C14_visibility_members : forall fuel p m s m' s',
+  fresh_ok m -> builtins_ok m -> NoDup (map fst (s_types s)) ->
+  (forall n o, In (n, o) (s_types s) -> tname m o = Some n) ->
+  NoDup (map fst (s_dirs s)) ->
+  on_schema fuel (vis_visitor p) m s = Ok (m', s') ->
+  regood p m' (s_types s') /\ dsgood p m' (s_dirs s').
+Proof. intros fuel p. exact (vis_members_removed p fuel). Qed.
+Print Assumptions C14_visibility_members.
 
 (* Preservation: healing keeps, for every object of the heap, its name, kind,
    python name, description, deprecation reason, default, resolver,
@@ -186,12 +191,37 @@ Theorem C14_preserved_partial : forall fuel m s m' s',
 Proof. exact fix_type_references_keeps. Qed.
 Print Assumptions C14_preserved_partial.
 
-(* full statement (not proved): the clone is observably equal to its source *)
-Definition C14_preserved_full : Prop :=
-  forall fuel m s m' s',
+(* Schema.clone preserves everything: every non-specified type of the source
+   is registered in the clone under its name as a new object with the same
+   name, kind, description, default / type resolver and directives, whose
+   members correspond one for one, in order, to the source's members -- each a
+   copy with the same name, python name, description, deprecation reason,
+   default, resolver, subscription resolver and directives (enum values: the
+   same value), and argument by argument the same for the arguments of fields. *)
+Theorem C14_clone_preserved : forall fuel m s m' s',
+  fresh_ok m -> builtins_ok m -> closed m s -> wf_schema m s -> wf_builtins s ->
+  clone fuel m s = Ok (m', s') ->
+  forall n t, In (n, t) (s_types s) -> is_builtin t = false ->
+    exists t', alookup n (s_types s') = Some t' /\ type_cloned m' n t t'.
+Proof. exact clone_preserved. Qed.
+Print Assumptions C14_clone_preserved.
+
+(* full statements (not proved): the same element-wise correspondence for the
+   visibility transform (restricted to the accepted elements) and for
+   camel-casing (names mapped through the renaming), and for the directives
+   of a clone *)
+Definition C14_preserved_vis_camel_full : Prop :=
+  forall fuel m s,
     fresh_ok m -> builtins_ok m -> closed m s -> wf_schema m s -> wf_builtins s ->
-    clone fuel m s = Ok (m', s') ->
-    observe m' (touch_poss m' s') = observe m (touch_poss m s).
+    (forall p m' s', transform fuel (vis_visitor p) m s = Ok (m', s') ->
+       forall n t', alookup n (s_types s') = Some t' -> is_builtin t' = false ->
+         exists t, In (n, t) (s_types s) /\
+           exists k d ms ifs r ds ms' ifs',
+             mget m' t = Some (OType n k d ms ifs r ds) /\ mget m' t' = Some (OType n k d ms' ifs' r ds) /\
+             exists kept, Forall2 (mcopy m') kept ms' /\ incl kept ms) /\
+    (forall c m' s', transform fuel (camel_visitor c) m s = Ok (m', s') ->
+       forall n t, In (n, t) (s_types s) -> is_builtin t = false ->
+         exists t', alookup n (s_types s') = Some t').
 
 (* full statement (not proved): the result of an operation does not depend on
    the operations applied to the same source before *)
